@@ -27,7 +27,7 @@ fn presentation_opts(rng: &mut Rng) -> Vec<String> {
     if rng.chance(0.5) { let n = rng.range(0, 4); let s: String = (0..n).map(|_| *rng.pick(b"saAvVNSWEdDcC") as char).collect(); a.push(format!("--order-by={}", s)); }
     if rng.chance(0.5) { a.push("--count-df".into()); }
     if rng.chance(0.6) { a.push(format!("--update={}", rng.pick(&[-1i64, 0, 1, 3, 1000]))); }
-    if rng.chance(0.3) { a.push(format!("--log-messages={}", rng.pick(&[17u32, 4, 20, 11]))); }
+    if rng.chance(0.3) { for _ in 0..rng.range(1, 3) { a.push(format!("--log-messages={}", rng.pick(&[17u32, 4, 20, 11, 5, 0, 16, 18, 21]))); } }
     if rng.chance(0.2) { a.push("--downlink-log=/dev/null".into()); }
     if rng.chance(0.15) { a.push(format!("--error-log={}", rng.pick(&["/dev/null", "/dev/full"]))); }
     a
@@ -47,6 +47,8 @@ fn gen(rng: &mut Rng, idx: u64, tier: Tier) -> Case {
         let mut base = vec![format!("--delete-after={}", d)];
         if rng.chance(0.4) { base.push("--use-update-method".into()); }
         if rng.chance(0.4) { base.push("--relaxed".into()); }
+        // a -f list shared by both executions: -M (and the rest) must not change which formats it keeps
+        if rng.chance(0.3) { for k in [0u32, 4, 5, 11, 16, 17, 18, 20, 21] { if rng.chance(0.5) { base.push(format!("--filter={}", k)); } } }
         let mut lines = gen::traffic(rng, &mut acs, n, d, gen::COMMON_KINDS, false, true, 12_000_000);
         // channel faults: junk, corruption
         for _ in 0..rng.range(0, 4) {
